@@ -3,7 +3,7 @@
    node_flat / edge_flat are the exact byte strings of the Go code (checked against the
    implementation's own strings on every run); Equal is string equality of them. *)
 From Coq Require Import Permutation.
-From Verif Require Import Model.Base Model.Node Model.Graph Model.Flat Proofs.SortFacts Proofs.FlatFacts.
+From Verif Require Import Model.Base Model.Node Model.Graph Model.Flat Proofs.SortFacts Proofs.FlatFacts Proofs.EdgeInj.
 Open Scope list_scope.
 
 Theorem C13_node_equal_equivalence : forall a b c,
@@ -69,6 +69,24 @@ Theorem C13_extref_hashes_covered : forall x,
                                   x_hashes := []; x_type := x_type x |}.
 Proof. exact extref_hashes_covered. Qed.
 Print Assumptions C13_extref_hashes_covered.
+
+(* edges: discrimination holds in full whenever the values are free of the format's separators (the
+   source without ':', no target empty or containing '+'): equal edges then have the same source, the
+   same type name and the same targets up to order.  Without the premise it fails (second part of
+   C13_discriminating_refuted). *)
+Theorem C13_edge_equal_discriminates : forall a b,
+  nochar ":" (e_from a) = true -> nochar ":" (e_from b) = true ->
+  Forall target_ok (e_to a) -> Forall target_ok (e_to b) ->
+  edge_equal a b = true ->
+  e_from a = e_from b /\
+  enum_name Edge_Type_names (e_type a) = enum_name Edge_Type_names (e_type b) /\
+  Permutation (e_to a) (e_to b).
+Proof. exact edge_equal_discriminates. Qed.
+Print Assumptions C13_edge_equal_discriminates.
+
+Example C13_edge_premise_inhabited :
+  nochar ":" "pkg-a" = true /\ Forall target_ok ["lib-b"; "lib-c"].
+Proof. split; [reflexivity|]. repeat constructor; discriminate. Qed.
 
 Definition nd (i : string) : node :=
   {| n_id := i; n_type := 0; n_name := ""; n_version := ""; n_file_name := ""; n_url_home := "";
